@@ -465,7 +465,7 @@ def step_tags_static(step):
     op = step["op"]
     if op == "subs":
         branches = sorted({val_branch(vs) for vs in step["subs"].values()})
-        tags = ["subs"] + ["subs:" + b for b in branches] + sorted({"val:" + vs["t"] for vs in step["subs"].values()})
+        tags = ["subs"] + ["subs:" + b for b in branches] + sorted({"val:" + vs["t"] for vs in step["subs"].values()}) + (["how:" + step["how"]] if step.get("how") else [])
         for vs in step["subs"].values():
             if vs["t"] == "affine":
                 tags += sorted(ex_tags(vs["expr"]))
@@ -496,6 +496,19 @@ def apply_step(F, O, step):
         return F + build_tensor(step["tensor"])
     if op == "subs":
         kw = OrderedDict((n, val_build(vs, O.inputs[n])) for n, vs in step["subs"].items())
+        how = step.get("how")
+        if how == "reversed":
+            from funsor.terms import Subs, to_funsor
+
+            return Subs(F, tuple((k, to_funsor(v, F.inputs[k])) for k, v in reversed(list(kw.items()))))
+        if how == "chained":
+            from funsor.interpretations import lazy
+
+            with lazy:
+                t = F
+                for k, v in reversed(list(kw.items())):
+                    t = t(**{k: v})
+            return reinterpret(t)
         return F(**kw)
     if op == "align":
         return F.align(tuple(step["names"]))
